@@ -289,6 +289,8 @@ def run_shard(rec):
     size = SIZES[rec.tier]
     part = rec.args.get("part", "main")
     if part == "main":
+        if rec.shard == 0:
+            rt.run_suite_with_contracts(rec, ("C03",))
         part_compositions(rec, size)
         part_pairs(rec, size)
         part_random(rec, size)
@@ -306,7 +308,9 @@ def run_shard(rec):
 
 
 def replay(case, rec):
-    if case["kind"] == "src":
+    if case["kind"] == "suite":
+        rt.run_suite_with_contracts(rec, ("C03",))
+    elif case["kind"] == "src":
         judge(rec, exprs.parse(case["src"]), case)
     elif case["kind"] == "corpus":
         tree = ast.parse(open(case["file"], encoding="utf8", errors="surrogateescape").read())
